@@ -48,11 +48,15 @@ def render_fit(case):
     for p in pages:
         items = []
         words = []
+        blocks = []
 
-        def walk(box, inflow):
+        def walk(box, inflow, simple=True):
             box = _unwrap(box)
             if not box.is_in_normal_flow() and not isinstance(box, boxes.PageBox):
                 inflow = False
+            if isinstance(box, (boxes.TableBox, boxes.FlexContainerBox, boxes.GridContainerBox, boxes.InlineBlockBox)) or (
+                    isinstance(box, boxes.BlockBox) and (box.style['column_count'] != 'auto' or box.style['column_width'] != 'auto')):
+                simple = False
             if isinstance(box, boxes.LineBox):
                 tb = []
                 _walk(box, tb)
@@ -62,11 +66,19 @@ def render_fit(case):
                 return
             if isinstance(box, boxes.TableRowBox):
                 items.append(('row', box.position_y, box.height, None, inflow))
+            start = len(items)
             for c in getattr(box, 'children', None) or ():
-                walk(c, inflow)
+                walk(c, inflow, simple)
+            if isinstance(box, boxes.BlockBox) and box.element_tag not in ('html', 'body') and inflow and simple \
+                    and type(box.height) in (int, float):
+                # border box of a block in plain block flow, its own bottom decoration, the range of its items
+                nlines = sum(1 for c in box.children if isinstance(c, boxes.LineBox))
+                blocks.append((box.border_box_y(), box.border_height(), start, len(items),
+                               box.padding_bottom + box.border_bottom_width, nlines,
+                               box.style['orphans'], box.style['widows'], box.style['break_inside']))
         html = p.children[0]
         walk(html, True)
         for extra in p.children[1:]:
             walk(extra, False)        # footnote area, margin boxes
-        res.append({'height': p.height, 'items': items, 'words': words})
+        res.append({'height': p.height, 'items': items, 'words': words, 'blocks': blocks})
     return res
